@@ -255,6 +255,19 @@ func suiteC02(c *Ctx) {
 // ---------- C01 ----------
 
 func suiteC01(c *Ctx) {
+	// a few large items in every run (the model costs ~40 us per element)
+	for _, sp := range []leafSpec{{"NA", 1}, {"NU", 2}, {"NI", 8}, {"NF", 8}, {"NB", 1}} {
+		for _, total := range []int{65535, 65536} {
+			if sp.op != "NA" && total == 65535 && !c.thorough {
+				continue
+			}
+			g := c.gen()
+			it := g.leaf(sp, total/sp.w, false)
+			m := g.hsmsMsg(it)
+			g.add(Step{Op: "RP", Ref: m})
+			c.emit(Case{"roundtrip-large", g.steps, false})
+		}
+	}
 	n := c.scale(1200, 50000)
 	for i := 0; i < n; i++ {
 		g := c.gen()
@@ -283,7 +296,7 @@ func suiteC01(c *Ctx) {
 				}
 				g.count("deep-chain")
 			} else {
-				it = g.tree(treeOpts{depth: depth, maxLeaf: c.scale(70000, 70000)})
+				it = g.tree(treeOpts{depth: depth, maxLeaf: c.scale(400, 70000)})
 			}
 			m = g.hsmsMsg(it)
 		}
